@@ -55,28 +55,44 @@ func (f *Frame) stdlibCall2(name string, callee *ssa.Function, args []Val, rt ty
 		ptypes = append(ptypes, callee.Signature.Params().At(i).Type())
 	}
 	T := func(i int) string { return f.asS(args[i], ptypes[i]).T }
+	// numErr builds the *strconv.NumError a failed conversion returns (Err is ErrRange or ErrSyntax)
+	numErr := func(ok, rng string) string {
+		o := callee.Pkg.Pkg.Scope().Lookup("NumError")
+		pt := types.NewPointer(o.Type())
+		ref := f.newRef()
+		s.freshRefs[ref] = true
+		key := "f:strconv.NumError.Err"
+		as := arrSort("Int", "Any")
+		f.heapSet(key, as, app("store", f.heapGet(key, as), ref, ite(rng, s.errConst("ErrRange"), s.errConst("ErrSyntax"))))
+		errv := s.freshConst("parseerr", "Any")
+		s.fact(eq(errv, ite(ok, "nil_any", app("mk-any", s.tag(pt), ref, "str_empty", "false", "flt_zero"))))
+		return errv
+	}
+	errT := types.Universe.Lookup("error").Type()
 	switch name {
-	case "strconv.ParseInt", "strconv.ParseUint":
+	case "strconv.ParseInt", "strconv.ParseUint", "strconv.Atoi":
 		signed := "1"
 		rty := types.Typ[types.Int64]
 		if name == "strconv.ParseUint" {
 			signed = "0"
 			rty = types.Typ[types.Uint64]
 		}
-		str, base, bits := T(0), T(1), T(2)
+		str := T(0)
+		base, bits := "10", "0"
+		if name == "strconv.Atoi" {
+			rty = types.Typ[types.Int]
+		} else {
+			base, bits = T(1), T(2)
+		}
 		ok := app("parse_ok", str, base, bits, signed)
 		rng := app("parse_range", str, base, bits, signed)
 		val := s.freshConst("parsed", "Int")
-		errv := s.freshConst("parseerr", "Any")
 		s.fact(f.wf(val, rty))
-		s.fact(app("is_wf_any", errv))
-		// ok: err == nil and the value is the denotation, which fits the bit size
-		s.fact(implies(ok, and(eq(errv, "nil_any"), eq(val, app("parse_val", str, base, bits, signed)))))
-		s.fact(implies(not(ok), not(eq(errv, "nil_any"))))
-		// syntax error: value 0; range error: value clamped (non-zero in general)
+		errv := numErr(ok, rng)
+		// ok: the value is the denotation, which fits the bit size
+		s.fact(implies(ok, eq(val, app("parse_val", str, base, bits, signed))))
+		// syntax error: value 0; range error: value clamped to the nearest bound
 		s.fact(implies(and(not(ok), not(rng)), eq(val, "0")))
-		s.fact(eq(app("err_is_range", errv), and(not(ok), rng)))
-		s.fact(eq(app("err_is_syntax", errv), and(not(ok), not(rng))))
 		// bit size 0 means int (64 bits)
 		for _, b := range []int{8, 16, 32, 64} {
 			cond := eq(bits, num(int64(b)))
@@ -85,12 +101,45 @@ func (f *Frame) stdlibCall2(name string, callee *ssa.Function, args []Val, rt ty
 			}
 			if signed == "1" {
 				s.fact(implies(cond, and(app("<=", "(- "+pow2Str(uint(b-1))+")", val), app("<", val, pow2Str(uint(b-1))))))
+				s.fact(implies(and(cond, not(ok), rng), or(eq(val, "(- "+pow2Str(uint(b-1))+")"), eq(val, app("-", pow2Str(uint(b-1)), "1")))))
 			} else {
 				s.fact(implies(cond, and(app("<=", "0", val), app("<", val, pow2Str(uint(b))))))
+				s.fact(implies(and(cond, not(ok), rng), eq(val, app("-", pow2Str(uint(b)), "1"))))
 			}
 		}
-		s.assume("strconv.ParseInt/ParseUint: err == nil exactly when the text is a number of the given base that fits the bit size, the value then being its denotation (parse_ok / parse_val / parse_range uninterpreted); syntax errors return 0")
-		return TupleV{[]Val{S{val, rty}, S{errv, types.Universe.Lookup("error").Type()}}}
+		s.assume("strconv.ParseInt/ParseUint/Atoi: err == nil exactly when the text is a number of the given base that fits the bit size, the value then being its denotation (parse_ok / parse_val / parse_range uninterpreted); a syntax error returns 0, a range error the nearest bound; the error is a *NumError whose Err is ErrSyntax or ErrRange")
+		return TupleV{[]Val{S{val, rty}, S{errv, errT}}}
+	case "strconv.ParseFloat":
+		str, bits := T(0), T(1)
+		ok := app("parsef_ok", str, bits)
+		rng := app("parsef_range", str, bits)
+		val := s.freshConst("parsedf", "Flt")
+		errv := numErr(ok, rng)
+		s.fact(implies(ok, eq(val, app("parsef_val", str, bits))))
+		s.fact(implies(ok, and(not(app("f_isnan", val)), not(app("f_isinf", val)))))
+		s.fact(implies(and(not(ok), not(rng)), eq(val, "flt_zero")))
+		s.fact(implies(and(not(ok), rng), app("f_isinf", val)))
+		s.assume("strconv.ParseFloat: err == nil exactly when the text is a finite number representable in the bit size (parsef_ok/parsef_val uninterpreted; hex floats and the words inf/nan are excluded by the lexer's number grammar); a range error returns an infinity, a syntax error 0")
+		return TupleV{[]Val{S{val, types.Typ[types.Float64]}, S{errv, errT}}}
+	case "strings.Index":
+		return S{app("str_index", T(0), T(1)), types.Typ[types.Int]}
+	case "strings.LastIndex":
+		return S{app("str_lastindex", T(0), T(1)), types.Typ[types.Int]}
+	case "strings.Count":
+		return S{app("str_count", T(0), T(1)), types.Typ[types.Int]}
+	case "unicode/utf8.RuneCountInString":
+		return S{app("rune_count", T(0)), types.Typ[types.Int]}
+	case "strings.ToUpper":
+		return S{app("str_upper", T(0)), types.Typ[types.String]}
+	case "strconv.Unquote":
+		r := s.freshConst("unq", "Str")
+		e := s.freshConst("unqerr", "Any")
+		s.fact(app("is_wf_any", e))
+		s.fact(eq(r, app("str_unquote", T(0))))
+		s.fact(eq(eq(e, "nil_any"), app("unquote_ok", T(0))))
+		s.fact(implies(not(app("unquote_ok", T(0))), eq(r, "str_empty")))
+		s.assume("strconv.Unquote: uninterpreted (str_unquote / unquote_ok); on error the result is the empty string")
+		return TupleV{[]Val{S{r, types.Typ[types.String]}, S{e, errT}}}
 	}
 	return nil
 }
